@@ -33,11 +33,12 @@ MIRI = [
 ]
 VALGRIND = [
     ("mapper", ["mapper", "prop=ALL", "layouts=60", "walks=10", "corpus_walks=4", "exh_budget=300000"]),
-    ("loop", ["loop", "prop=C11", "layouts=20", "schedules=6"]),
-    ("convert", ["convert", "prop=C13", "aux=1", "programs=400"]),
-    ("load", ["load", "prop=C14", "inputs=600"]),
-    ("wire", ["wire", "prop=C18", "aux=1", "random=40"]),
-    ("systemd", ["systemd", "prop=C17", "aux=1", "random=400"]),
+    ("loop", ["loop", "prop=C11", "layouts=400", "schedules=10"]),
+    ("loop-faults", ["loop", "prop=C20", "layouts=60", "schedules=4"]),
+    ("convert", ["convert", "prop=C13", "aux=1", "programs=8000"]),
+    ("load", ["load", "prop=C14", "inputs=8000"]),
+    ("wire", ["wire", "prop=C18", "aux=1", "random=600", "sessions=300"]),
+    ("systemd", ["systemd", "prop=C17", "aux=1", "random=20000"]),
 ]
 
 
@@ -72,10 +73,18 @@ def run(kind, name, args):
 
 def main():
     jobs = [("miri", n, a) for n, a in MIRI] + [("valgrind", n, a) for n, a in VALGRIND]
+    prev = {}
+    if "--only-valgrind" in sys.argv:
+        # keep the Miri results of the last full run
+        try:
+            prev = {(r["tool"], r["engine"]): r for r in json.load(open(os.path.join(ROOT, "aux", "sanitizers.json")))["results"] if r["tool"] == "miri"}
+        except Exception:
+            prev = {}
+        jobs = [j for j in jobs if j[0] == "valgrind"]
     # one Miri build first (the jobs share the target dir)
     with ThreadPoolExecutor(max_workers=8) as ex:
         first = run(*jobs[0])
-        res = [first] + list(ex.map(lambda j: run(*j), jobs[1:]))
+        res = list(prev.values()) + [first] + list(ex.map(lambda j: run(*j), jobs[1:]))
     os.makedirs(os.path.join(ROOT, "aux"), exist_ok=True)
     doc = {"note": "auxiliary, non-deciding: no property depends on this sweep", "results": res,
            "clean": all(not r["reports"] and r["ran_to_completion"] for r in res)}
